@@ -313,6 +313,10 @@ def run_c13(script, rng, summary):
     if feasible == "unknown":
         return None
     nobj = len(real0.problem.objectives)
+    if nobj and real0.problem.horizon is None:
+        # an objective on an unbounded problem keeps every solve() busy until max_time: not a quick-tier case
+        count(summary, "run_c13_skipped_unbounded_objective")
+        return None
     cfg = {"optimizer": rng.choice(["incremental", "optimize"])}
     if cfg["optimizer"] == "optimize":
         # pareto excluded by the property; with several objectives z3.Optimize's box mode also answers
@@ -324,7 +328,7 @@ def run_c13(script, rng, summary):
     multi_equiv = nobj > 1 and (cfg["optimizer"] == "incremental" or cfg.get("optimize_priority") == "weight")
     pool = ["solve", "solve", "solve", "findAnother", "findAnother", "export"] + ([] if multi_equiv else ["initialize"])
     ops = [rng.choice(pool) for _ in range(rng.randint(2, 5))]
-    if rng.random() < 0.3:
+    if rng.random() < 0.45:
         # ask for other schedules until the solver says there is none: that answer is checked too
         ops = ["solve"] + ["findAnother"] * rng.randint(3, 9)
         count(summary, "run_c13_enumeration_sequences")
@@ -337,7 +341,7 @@ def run_c13(script, rng, summary):
     last = None
     init_own = None        # the solver's assertions after its first initialisation
     with smrun.silent():
-        s = ps.SchedulingSolver(problem=real.problem, max_time=10, **cfg)
+        s = ps.SchedulingSolver(problem=real.problem, max_time=3, **cfg)
         for i, op in enumerate(ops):
             try:
                 if op == "initialize":
